@@ -157,20 +157,25 @@ def run_literal_parity(prog, tier, repo):
                 continue
             # helpers directly called in this body (same crate) are part of the path
             scope = [b] + [prog.bodies[r] for r in body_refs(b) if r in prog.bodies and prog.bodies[r].crate == b.crate
-                           and prog.bodies[r].kind != 'closure' and len(prog.bodies[r].blocks) < 12]
+                           and prog.bodies[r].kind != 'closure' and len(prog.bodies[r].blocks) < 40]
             for s in scope:
                 for bi, t in call_sites(s, lambda n: n.endswith(TRANSFORMS)):
                     pat = []
                     for o in t[3][1:]:
+                        k_ = None
                         if o[0] == 'k':
-                            pat.append(o[1].v)
+                            k_ = o[1]
                         elif o[0] in ('c', 'm'):
                             r, pp = operand_root(s, o)
                             sd = single_def(s, r)
                             if sd and sd[1] != 'term' and sd[2][0] == 'use' and sd[2][1][0] == 'k':
-                                pat.append(sd[2][1][1].v)
-                            else:
-                                pat.append('<dynamic>')
+                                k_ = sd[2][1][1]
+                        if k_ is None:
+                            pat.append('<dynamic>')
+                        elif k_.u:
+                            pat.append('<named constant>')       # `const QUOTE: &str = ..`: the facts do not evaluate it
+                        else:
+                            pat.append(k_.v)
                     out.append((s, t[7], (callee(t)[1] or '').split('::')[-1], pat))
         return out
 
@@ -206,7 +211,8 @@ def run_literal_parity(prog, tier, repo):
     for b, line, name, pat in ptr:
         key = f'unescape:{b.name}:{name}'
         # an inverse must exist on the printer side: a replace whose (from, to) patterns are swapped
-        inv = [q for q in qtr if q[2] == name and list(reversed(q[3])) == pat]
+        inv = [q for q in qtr if q[2] == name and (list(reversed(q[3])) == pat or
+                                                   (len(q[3]) == len(pat) and '<named constant>' in q[3] + pat))]
         if inv:
             res.ok(key, b.loc(line), f'inverse {name}{inv[0][3]} on the printer path ({inv[0][0].name})')
         else:
@@ -216,7 +222,8 @@ def run_literal_parity(prog, tier, repo):
     if not ptr and not qtr:
         res.ok('no-transform', '-', 'neither side transforms string-literal text')
     for b, line, name, pat in qtr:
-        if not any(p[2] == name and list(reversed(p[3])) == pat for p in ptr):
+        if not any(p[2] == name and (list(reversed(p[3])) == pat or (len(p[3]) == len(pat) and '<named constant>' in p[3] + pat))
+                   for p in ptr):
             res.violation(f'escape:{b.name}:{name}', b.loc(line), f'the printer applies {name}{pat} to string-literal text but the '
                           f'parser has no inverse: formatting changes the literal')
     return [res]
@@ -573,6 +580,34 @@ def run_paren_sink(prog, tier, repo):
                         if callee(t2)[0] in wrappers:
                             wrapped += 1
         return uses == wrapped == 1
+    # a local closure that only forwards its argument to the decider / the plain printer (`let guarded = |e| decide(.., e, true)`)
+    # is that function under another name
+    forwarders = {}
+    for cb in prog.bodies.values():
+        if cb.crate != 'samlang_printer' or cb.kind != 'closure' or cb.nargs != 2:
+            continue
+        kinds = set()
+        for cbl in cb.blocks:
+            ct = cbl.term
+            if cbl.cleanup or ct[0] != 'call':
+                continue
+            ccid = callee(ct)[0]
+            if ccid == dec.id and len(ct[3]) > sub_idx and operand_root(cb, ct[3][sub_idx])[0] == 2:
+                kinds.add('dec')
+            elif ccid in plain and any(o[0] in ('c', 'm') and operand_root(cb, o)[0] == 2 for o in ct[3]):
+                kinds.add('plain')
+        if len(kinds) == 1:
+            forwarders[cb.id] = kinds.pop()
+
+    def unforward(b, t):
+        """(kind, operand) when the call invokes a forwarding closure: the operand is the element of the argument tuple"""
+        cid = callee(t)[0]
+        if cid not in forwarders or len(t[3]) < 2 or t[3][1][0] not in ('c', 'm'):
+            return None, None
+        sdt = single_def(b, t[3][1][1].local)
+        if sdt and sdt[1] != 'term' and sdt[2][0] == 'agg' and sdt[2][2]:
+            return forwarders[cid], sdt[2][2][0]
+        return None, None
     reached = {}
     for b in prog.bodies.values():
         if b.crate != 'samlang_printer' or b.id == dec.id:
@@ -583,6 +618,16 @@ def run_paren_sink(prog, tier, repo):
             if bl.cleanup or t[0] != 'call':
                 continue
             cid, nm = callee(t)
+            fk, fop = unforward(b, t)
+            if fk == 'dec':
+                r, p = operand_root(b, fop)
+                fs = [e for e in p if e[0] == 'f']
+                if fs:
+                    reached.setdefault((prog.adts[fs[-1][1]].name.split('::')[-1], fs[-1][4]), []).append((b, t[7]))
+                continue
+            if fk == 'plain':
+                cid = next(iter(plain))
+                t = t[:3] + ((fop,),) + t[4:]
             if cid == dec.id:
                 r, p = operand_root(b, t[3][sub_idx])
                 fs = [e for e in p if e[0] == 'f']
